@@ -11,7 +11,7 @@ from . import plan as P
 HERE = os.path.dirname(os.path.dirname(os.path.abspath(__file__)))
 
 # Which oracles each property's check enforces (DESIGN.md 3.6, 4.x).
-CRASH = ("asan", "ubsan", "abort", "signal", "sanitizer", "truncated", "exit")
+CRASH = ("asan", "ubsan", "abort", "signal", "sanitizer", "truncated", "exit", "valgrind")
 ENFORCED = {
     "C12": ("seq", "parse-stable", "open-stable", "input-intact", "hang", "baseline") + CRASH,
     "C13": ("scon", "scon-live", "leak", "fd-leak", "fd-discipline") + CRASH,
@@ -169,6 +169,13 @@ def classify(resp, last_op=None):
                 return ("hang-parse", "hang-parse", "watchdog fired inside a PARSE step")
             return ("hang", "hang:%s" % (last_op or "?"), "watchdog fired inside %s" % last_op)
         return (orc, orc, det)
+    if resp.exit == 78:
+        # valgrind (plain build under memcheck, thorough tier of C13)
+        m = re.search(r"==\d+== ([A-Z][^\n]*)", log)
+        what = re.sub(r"0x[0-9a-fA-F]+|\d+", "N", m.group(1))[:70] if m else "error"
+        fr = re.findall(r"==\d+==\s+(?:at|by) 0x[0-9A-F]+: (\S+) \((?:in )?([^)]*)\)", log)
+        repo = [f for f, where in fr if re.search(r"\.(cc|hh|yy|ll|h):\d+", where) and "/verif/sim" not in where]
+        return ("valgrind", "valgrind:%s:%s" % (what, ">".join(repo[:2])), log[:5000])
     if resp.exit == 77:
         m = re.search(r"ERROR: AddressSanitizer: (\S+)", log)
         if m:
